@@ -11,4 +11,5 @@ driver.ensure_makefile()
 PY
 timeout 3000 make -C coq -j16 >/dev/null
 (cd harness && CARGO_TARGET_DIR=$PWD/target timeout 1800 cargo build --offline --release --quiet 2>/dev/null)
+(cd harness && CARGO_TARGET_DIR=$PWD/target-rayon timeout 1800 cargo build --offline --release --quiet --features rayon 2>/dev/null)
 echo setup ok
